@@ -225,6 +225,7 @@ pub fn clones(r: &dyn Runner, _tier: Tier, _st: &St, out: &mut Vec<Edge>) {
     use crate::exec_clone::{N_TARGETS, N_THEN};
     if r.cloneable() { for then in 0..2 * N_THEN { out.push(Edge::CloneVec { then }); } }
     if r.cloneable() { for dst in 0..crate::caps::N_FOREIGN { for then in 0..N_THEN { out.push(Edge::CloneFrom { dst, then }); } } }
+    out.push(Edge::TypeReports(1)); // element_clone() / element_drop() functions called by hand
     for then in 0..N_THEN { out.push(Edge::CloneEmpty { then }); }
     for target in 0..N_TARGETS { for then in 0..N_THEN { out.push(Edge::CloneEmptyIn { target, then }); } }
 }
